@@ -85,7 +85,7 @@ var selSwap = map[string]map[string]selShim{
 		"Exit": {shVenv, ""},
 	},
 	"os/signal": {
-		"Notify": {shVenv, ""},
+		"Notify": {shVenv, ""}, "Stop": {shVenv, "SignalStop"}, "Reset": {shVenv, "SignalReset"},
 	},
 	"math/rand": {
 		"Float64": {shVenv, ""}, "NewSource": {shVenv, ""}, "Int63": {shVenv, ""}, "Intn": {shVenv, ""}, "Int": {shVenv, ""},
